@@ -63,7 +63,8 @@ vars == <<sm, mode, queue, rq, pending, durable, pruned, tmo, sent, commits, gho
 view == <<sm, mode, queue, rq, pending, durable, pruned, tmo, sent, commits, ghost, ref, ok, nin, ncr>>
 
 \* ---- substitutions for Tendermint's operator constants
-DrvUnitPower == [v \in 1..NV |-> 1]
+\* every stake is 1 at odd heights and 2 at even heights (the total changes at every commit)
+DrvPowerOf(h, v) == IF h % 2 = 0 THEN 2 ELSE 1
 DrvProposerOf(h, r) == ((h + r + PropShift) % NV) + 1
 DrvAppValue(p, k) == 10 + k
 DrvIsValid(v) == v \in 1..NValid \/ v >= 10
